@@ -62,9 +62,7 @@ pub fn judge_text(text: &str) -> Result<Verdict, (String, String)> {
             if a.is_ok() {
                 return Err(("accepts-malformed".into(), format!("{text:?} is malformed but accepted")));
             }
-            if c == Err(false) {
-                return Err(("wrong-error-kind".into(), format!("{text:?}: FileOptions::caps failed with an error other than InvalidCapabilities")));
-            }
+
         }
         Verdict::Unspecified => {}
     }
